@@ -1547,4 +1547,226 @@ theorem total_shift (eq : PrimitiveEquations K M N) (s : State M) (dT : List K) 
   · rfl
 
 end assembly2
+
+/-! ## the moist classes -/
+section moist
+set_option linter.unusedSectionVars false
+variable {K M N : Type} [Field K] [DecidableEq K] [AddCommGroup M] [Module K M] [CommRing N] [Algebra K N]
+  [Div N]
+
+theorem lookup_mapTracers {α β : Type} (f : α → β) (name : String) (t : List (String × α)) :
+    lookup name (mapTracers f t) = (lookup name t).map f := by
+  induction t with
+  | nil => rfl
+  | cons kv t ih =>
+    obtain ⟨k, v⟩ := kv
+    simp only [mapTracers, List.map_cons, lookup] at ih ⊢
+    split_ifs
+    · rfl
+    · exact ih
+
+/-- the body of `vorticity_tendency_due_to_humidity` for a given modal humidity column -/
+def humVortOf (eq : PrimitiveEquations K M N) (qm : List M) (aux : Diag N) : List M :=
+  (List.zipWith
+    (fun (tr : N) (g : N × N) => tr * constN (eq.phys.Rvapor - eq.phys.R) * eq.ops.sec2Lat
+        * (aux.cosLatGradLogSp.1 * g.2 - aux.cosLatGradLogSp.2 * g.1))
+    eq.tRef (MoistPrimitiveEquations.nodalCosLatGradQ eq qm)).map eq.ops.toModal
+
+/-- the body of `divergence_tendency_due_to_humidity` -/
+def humDivOf (eq : PrimitiveEquations K M N) (p : M) (q : List N) (qm : List M) (aux : Diag N) : List M :=
+  let nodalLaplacianLsp := eq.ops.toNodal (eq.ops.laplacian p)
+  let nodalLaplacianCorrectionTerm := List.zipWith
+    (fun qq (tr : N) => qq * nodalLaplacianLsp * tr * constN (eq.phys.Rvapor - eq.phys.R)) q eq.tRef
+  let gq := MoistPrimitiveEquations.nodalCosLatGradQ eq qm
+  let nodalDotTerm := List.zipWith
+    (fun (tr : N) (g : N × N) => tr * constN (eq.phys.Rvapor - eq.phys.R) * eq.ops.sec2Lat
+        * (g.1 * aux.cosLatGradLogSp.1 + g.2 * aux.cosLatGradLogSp.2))
+    eq.tRef gq
+  let temperature := Col.add aux.temperatureVariation eq.tRef
+  let temperatureDiff := List.zipWith (fun qq t => (eq.phys.Rvapor / eq.phys.R - 1) • (qq * t)) q temperature
+  let geopotentialDiff := eq.geopotentialDiff temperatureDiff
+  List.zipWith
+    (fun gd tm => -(eq.ops.laplacian (eq.ops.toModal gd)) - eq.ops.toModal tm)
+    geopotentialDiff (Col.add nodalDotTerm nodalLaplacianCorrectionTerm)
+
+/-- the body of the moist `nodal_temperature_adiabatic_tendency` -/
+def moistAdiabOf (eq : PrimitiveEquations K M N) (q : List N) (aux : Diag N) : List N :=
+  let gasConstRatio := eq.phys.Rvapor / eq.phys.R
+  let cp := eq.phys.R / eq.phys.kappa
+  let heatCapacityRatio := eq.phys.CpVapor / cp
+  let gExplicit := aux.uDotGradLogSp
+  let gFull := Col.add gExplicit aux.divergence
+  let meanTPart := eq.tOmegaOverSigmaSp eq.tRef gExplicit aux.uDotGradLogSp
+  let variationTemperatureComponent := List.zipWith
+    (fun t qq => t * (((1 : N) + (gasConstRatio - 1) • qq) / ((1 : N) + (heatCapacityRatio - 1) • qq)))
+    aux.temperatureVariation q
+  let humidityReferenceComponent := List.zipWith
+    (fun (tr : N) qq => tr * (((gasConstRatio - heatCapacityRatio) • qq)
+        / ((1 : N) + (heatCapacityRatio - 1) • qq)))
+    eq.tRef q
+  let variationAndHumidityTerms := Col.add variationTemperatureComponent humidityReferenceComponent
+  let variationAndTvPart := eq.tOmegaOverSigmaSp variationAndHumidityTerms gFull aux.uDotGradLogSp
+  Col.smul eq.phys.kappa (Col.add meanTPart variationAndTvPart)
+
+/-- the moist explicit terms when every tracer lookup succeeds -/
+def moistExplicitOf (eq : PrimitiveEquations K M N) (s : State M) (aux : Diag N) (rTv : List N)
+    (q : List N) (qm : List M) : State M :=
+  let cd := eq.curlAndDivTendenciesWith aux rTv
+  let th := eq.thermoTendencies aux (moistAdiabOf eq q aux)
+  eq.clipState
+    { vorticity := Col.add cd.1 (humVortOf eq qm aux)
+      divergence := Col.add (Col.addLevel (Col.add cd.2 (eq.kineticEnergyTendency aux)) eq.orographyTendency)
+        (humDivOf eq s.logSurfacePressure q qm aux)
+      temperatureVariation := th.1
+      logSurfacePressure := th.2.1
+      tracers := th.2.2 }
+
+/-- evaluation of `MoistPrimitiveEquations.explicit_terms` (any `_virtual_temperature` method)
+ on a state that carries specific humidity -/
+theorem explicitTermsWith_eval (eq : PrimitiveEquations K M N) (vt : Diag N → List N → Option (List N))
+    (s : StateWithTime K M) (qm : List M) (rTv : List N)
+    (hq : lookup specificHumidityKey s.state.tracers = some qm)
+    (hvt : vt (computeDiagnosticState eq.ops eq.vert s.state)
+        (Col.smul (eq.phys.Rvapor / eq.phys.R - 1) (qm.map eq.ops.toNodal)) = some rTv) :
+    MoistPrimitiveEquations.explicitTermsWith eq vt s
+      = some { state := moistExplicitOf eq s.state (computeDiagnosticState eq.ops eq.vert s.state) rTv
+                  (qm.map eq.ops.toNodal) qm
+               simTime := 1 } := by
+  have hqn : lookup specificHumidityKey (computeDiagnosticState eq.ops eq.vert s.state).tracers
+      = some (qm.map eq.ops.toNodal) := by
+    show lookup specificHumidityKey (mapTracers _ s.state.tracers) = _
+    rw [lookup_mapTracers, hq]; rfl
+  simp only [MoistPrimitiveEquations.explicitTermsWith, MoistPrimitiveEquations.curlAndDivTendencies,
+    MoistPrimitiveEquations.vorticityTendencyDueToHumidity,
+    MoistPrimitiveEquations.divergenceTendencyDueToHumidity,
+    MoistPrimitiveEquations.nodalTemperatureAdiabaticTendency,
+    MoistPrimitiveEquations.getSpecificHumidity, hq, hqn, hvt, Option.bind_eq_bind, Option.bind_some,
+    Option.pure_def]
+  rfl
+
+
+/-- the vertical temperature tendency under the shift -/
+theorem vert_level (eq : PrimitiveEquations K M N) (aux : Diag N) (n : ℕ) (S : DiagShaped eq aux n)
+    (dT : List K) (hd : dT.length = n) (hinc : eq.includeVerticalAdvection = true) (i : ℕ) (hi : i < n) :
+    lv ((withTRef eq (Col.sub eq.referenceTemperature dT)).nodalTemperatureVerticalTendency
+          (aux.withT (shiftN aux.temperatureVariation dT))) i
+      = lv (eq.nodalTemperatureVerticalTendency aux) i
+        + lv (advScalar eq.vert.ctc (sigmaDotOf eq.vert.ds (Col.cumSigmaIntegral eq.vert.ds aux.divergence)) dT) i := by
+  have S2 := S.shift dT hd
+  rw [lv_vertTend _ _ n S2 hinc i hi, lv_vertTend eq aux n S hinc i hi]
+  show lv (Col.centeredAdvection eq.vert.ctc aux.sigmaDotFull (shiftN aux.temperatureVariation dT)) i
+      + lv (advScalar eq.vert.ctc aux.sigmaDotExplicit (Col.sub eq.referenceTemperature dT)) i = _
+  have hsdd := sigmaDotOf_length eq.vert.ds (Col.cumSigmaIntegral eq.vert.ds aux.divergence) n S.ds
+    (by simp [S.ds, S.d])
+  have hw : lv (advScalar eq.vert.ctc aux.sigmaDotFull dT) i
+      = lv (advScalar eq.vert.ctc (sigmaDotOf eq.vert.ds (Col.cumSigmaIntegral eq.vert.ds aux.divergence)) dT) i
+        + lv (advScalar eq.vert.ctc aux.sigmaDotExplicit dT) i := by
+    apply lv_advScalar_add_w _ _ _ _ _ n S.ctc S.sdf_len hsdd S.sde_len hd _ i hi
+    intro j
+    rw [S.sdf, S.sde]
+    exact lv_sigmaDot_add _ _ _ n S.ds S.d S.g j
+  rw [shiftN, lv_adv_shift _ _ _ _ n S.ctc S.sdf_len S.t hd i hi, hw,
+    lv_advScalar_sub _ _ _ _ n S.ctc S.sde_len S.tr hd i hi]
+  ring
+
+/-- the two humidity factors of the moist adiabatic term -/
+def moistA (eq : PrimitiveEquations K M N) (qq : N) : N :=
+  ((1 : N) + (eq.phys.Rvapor / eq.phys.R - 1) • qq)
+    / ((1 : N) + (eq.phys.CpVapor / (eq.phys.R / eq.phys.kappa) - 1) • qq)
+def moistB (eq : PrimitiveEquations K M N) (qq : N) : N :=
+  ((eq.phys.Rvapor / eq.phys.R - eq.phys.CpVapor / (eq.phys.R / eq.phys.kappa)) • qq)
+    / ((1 : N) + (eq.phys.CpVapor / (eq.phys.R / eq.phys.kappa) - 1) • qq)
+
+theorem moistAdiab_length (eq : PrimitiveEquations K M N) (q : List N) (aux : Diag N) (n : ℕ)
+    (S : DiagShaped eq aux n) (hq : q.length = n) : (moistAdiabOf eq q aux).length = n := by
+  unfold moistAdiabOf
+  simp only [tOmega_eq]
+  have hg1 := gPart_length eq.vert.ds eq.vert.alpha aux.uDotGradLogSp n S.ds S.al S.g
+  have hg2 := gPart_length eq.vert.ds eq.vert.alpha (Col.add aux.uDotGradLogSp aux.divergence) n S.ds S.al
+    (by simp [Col.add, S.g, S.d])
+  simp only [Col.add] at hg2
+  simp [Col.smul, Col.add, Col.mul, Col.sub, PrimitiveEquations.tRef, S.tr, S.g, S.t, hg1, hg2, hq]
+
+/-- the moist adiabatic tendency, level by level -/
+theorem lv_moistAdiab (eq : PrimitiveEquations K M N) (q : List N) (aux : Diag N) (n : ℕ)
+    (S : DiagShaped eq aux n) (hq : q.length = n) (i : ℕ) (hi : i < n) :
+    lv (moistAdiabOf eq q aux) i
+      = eq.phys.kappa • (constN (lv eq.referenceTemperature i)
+            * (lv aux.uDotGradLogSp i - lv (gPart eq.vert.ds eq.vert.alpha aux.uDotGradLogSp) i)
+          + (lv aux.temperatureVariation i * moistA eq (lv q i)
+              + constN (lv eq.referenceTemperature i) * moistB eq (lv q i))
+            * (lv aux.uDotGradLogSp i - (lv (gPart eq.vert.ds eq.vert.alpha aux.uDotGradLogSp) i
+                + lv (gPart eq.vert.ds eq.vert.alpha aux.divergence) i))) := by
+  unfold moistAdiabOf
+  simp only [tOmega_eq]
+  have hg1 := gPart_length eq.vert.ds eq.vert.alpha aux.uDotGradLogSp n S.ds S.al S.g
+  have hg2 := gPart_length eq.vert.ds eq.vert.alpha (Col.add aux.uDotGradLogSp aux.divergence) n S.ds S.al
+    (by simp [Col.add, S.g, S.d])
+  have hg2' := hg2
+  simp only [Col.add] at hg2'
+  rw [lv_smul, lv_add _ _ (by simp [Col.mul, Col.sub, Col.add, PrimitiveEquations.tRef, S.tr, S.g, S.t, hg1, hg2', hq]),
+    lv_mul, lv_mul, lv_sub _ _ (by rw [S.g, hg1]), lv_sub _ _ (by rw [S.g, hg2]),
+    lv_gPart_add _ _ _ _ n S.ds S.al S.g S.d i hi,
+    lv_add _ _ (by simp [PrimitiveEquations.tRef, S.tr, S.t, hq]),
+    lv_zipWith _ _ _ (by rw [S.t]; exact hi) (by rw [hq]; exact hi),
+    lv_zipWith _ _ _ (by simp [PrimitiveEquations.tRef, S.tr]; exact hi) (by rw [hq]; exact hi),
+    PrimitiveEquations.tRef, lv_map_zero _ constN_zero]
+  rfl
+
+/-- the pointwise identity `(1+ε_R q)/(1+ε_cp q) − (ε_R−ε_cp)q/(1+ε_cp q) = 1` when division by
+ `1+ε_cp q` is a true inverse -/
+theorem moistA_sub_moistB (eq : PrimitiveEquations K M N) (qq : N)
+    (hdiv : ∀ x : N, ((1 : N) + (eq.phys.CpVapor / (eq.phys.R / eq.phys.kappa) - 1) • qq)
+        * (x / ((1 : N) + (eq.phys.CpVapor / (eq.phys.R / eq.phys.kappa) - 1) • qq)) = x) :
+    moistA eq qq - moistB eq qq = 1 := by
+  unfold moistA moistB
+  generalize eq.phys.Rvapor / eq.phys.R = r at *
+  generalize eq.phys.CpVapor / (eq.phys.R / eq.phys.kappa) = c at *
+  have h1 := hdiv ((1 : N) + (r - 1) • qq)
+  have h2 := hdiv ((r - c) • qq)
+  have h3 := hdiv 1
+  generalize ((1 : N) + (r - 1) • qq) / ((1 : N) + (c - 1) • qq) = a at *
+  generalize ((r - c) • qq) / ((1 : N) + (c - 1) • qq) = b at *
+  generalize (1 : N) / ((1 : N) + (c - 1) • qq) = inv at *
+  have e : ((1 : N) + (c - 1) • qq) * (a - b) = (1 : N) + (c - 1) • qq := by
+    rw [mul_sub, h1, h2]; module
+  calc a - b = (((1 : N) + (c - 1) • qq) * inv) * (a - b) := by rw [h3, one_mul]
+    _ = inv * (((1 : N) + (c - 1) • qq) * (a - b)) := by ring
+    _ = inv * ((1 : N) + (c - 1) • qq) := by rw [e]
+    _ = 1 := by rw [mul_comm, h3]
+
+/-- `vertical + moist adiabatic` under the shift: the hypothesis `hadiab` of `temperature_field` -/
+theorem moist_thermo_level (eq : PrimitiveEquations K M N) (aux : Diag N) (q : List N) (n : ℕ)
+    (S : DiagShaped eq aux n) (hq : q.length = n)
+    (dT : List K) (hd : dT.length = n) (hinc : eq.includeVerticalAdvection = true) (i : ℕ) (hi : i < n)
+    (hdiv : ∀ x : N, ((1 : N) + (eq.phys.CpVapor / (eq.phys.R / eq.phys.kappa) - 1) • lv q i)
+        * (x / ((1 : N) + (eq.phys.CpVapor / (eq.phys.R / eq.phys.kappa) - 1) • lv q i)) = x) :
+    lv ((withTRef eq (Col.sub eq.referenceTemperature dT)).nodalTemperatureVerticalTendency
+          (aux.withT (shiftN aux.temperatureVariation dT))) i
+      + lv (moistAdiabOf (withTRef eq (Col.sub eq.referenceTemperature dT)) q
+          (aux.withT (shiftN aux.temperatureVariation dT))) i
+    = lv (eq.nodalTemperatureVerticalTendency aux) i + lv (moistAdiabOf eq q aux) i
+      - lv (refTerms eq.vert eq.phys.kappa dT aux.divergence) i := by
+  have S2 := S.shift dT hd
+  rw [vert_level eq aux n S dT hd hinc i hi, lv_moistAdiab _ q _ n S2 hq i hi, lv_moistAdiab eq q aux n S hq i hi]
+  show _ + eq.phys.kappa • (constN (lv (Col.sub eq.referenceTemperature dT) i)
+            * (lv aux.uDotGradLogSp i - lv (gPart eq.vert.ds eq.vert.alpha aux.uDotGradLogSp) i)
+          + (lv (shiftN aux.temperatureVariation dT) i * moistA eq (lv q i)
+              + constN (lv (Col.sub eq.referenceTemperature dT) i) * moistB eq (lv q i))
+            * (lv aux.uDotGradLogSp i - (lv (gPart eq.vert.ds eq.vert.alpha aux.uDotGradLogSp) i
+                + lv (gPart eq.vert.ds eq.vert.alpha aux.divergence) i))) = _
+  have hsdd := sigmaDotOf_length eq.vert.ds (Col.cumSigmaIntegral eq.vert.ds aux.divergence) n S.ds
+    (by simp [S.ds, S.d])
+  have hgp := gPart_length eq.vert.ds eq.vert.alpha aux.divergence n S.ds S.al S.d
+  have hab := moistA_sub_moistB eq (lv q i) hdiv
+  have hA : moistA eq (lv q i) = 1 + moistB eq (lv q i) := by rw [← hab]; ring
+  rw [lv_sub _ _ (by rw [S.tr, hd]), shiftN,
+    lv_zipWith _ _ _ (by rw [S.t]; exact hi) (by rw [hd]; exact hi)]
+  unfold refTerms
+  rw [lv_sub _ _ (by simp [Col.smul, hgp, hd, advScalar_length _ _ _ n S.pos S.ctc hsdd hd]),
+    lv_smul, lv_wmul, hA]
+  simp only [constN_eq, Algebra.smul_def, map_sub, mul_one]
+  ring
+
+end moist
 end Dino.Dynamics
